@@ -172,6 +172,14 @@ CLAIMED = {
             "for 60 hosts x ports 0..65535 on a grid.",
             "Trusted: TLC. Non-canonical trailing bits in a padded quartet are accepted (the statement is silent).",
             "DESIGN.md 3.11"),
+    "C10": ("TLA+ transcriptions of CRC-32, FNV-1a, MD5 (RFC 1321), SHA-1 and SHA-256 (FIPS 180-4) on 16-bit limbs with "
+            "tables generated from the published formulas (spec/Hash): TLC checks RFC/FIPS known answers, padding and "
+            "chaining laws, and validates every recorded digest of the real functions",
+            "Every message length 0..130 (thorough 0..300 x 4 fill patterns) so that every padding case around the 55/56/63/64 "
+            "boundaries occurs, boundary lengths to 1000, 4 KiB-64 KiB messages, both renderings; CRC/FNV up to 1 MiB and "
+            "chaining at every split point incl. empty chunks; TLC evaluates the reference algorithm for every message.",
+            "Trusted: TLC and CommunityModules Bitwise; messages above 300 bytes use one pseudo-random fill pattern.",
+            "DESIGN.md 3.10"),
 }
 
 NOT_YET = "check not built yet in this round (planned: see DESIGN.md section 3)"
